@@ -3,6 +3,7 @@ import FemtoVerif.Driver.Gc
 import FemtoVerif.Driver.C02
 import FemtoVerif.Driver.C13
 import FemtoVerif.Driver.C08
+import FemtoVerif.Driver.C15
 open Lean
 
 namespace Femto.Driver
@@ -22,6 +23,7 @@ def dispatch (op : String) (j : Json) : Except String Json :=
   | "c13.count" => C13.count j
   | "c08.writer" => C08.writer j
   | "c08.adj" => C08.adj j
+  | "c15.raster" => C15.raster j
   | _ => .error s!"unknown op {op}"
 
 def handleLine (line : String) : String :=
